@@ -15,7 +15,8 @@ RULE = ("for each generated valid program P: EVERY statement position (openers, 
         "statements inside every construct and unit kind) is replaced in turn by a garbage text from a fixed set verified "
         "at start-up to match no rule; layouts: canonical one-statement-per-line and one random free-form layout per "
         "program (continuations, comments and blank lines around and inside the garbage, garbage continued over 2-3 "
-        "lines); comments ignored and retained; both standards. Oracle: FortranSyntaxError whose 'at line N' is the last "
+        "lines; in a third of the layouts comments and blank lines carry form feeds and other characters that "
+        "str.splitlines() would take for line ends); comments ignored and retained; both standards. Oracle: FortranSyntaxError whose 'at line N' is the last "
         "physical line of the replaced statement and whose '>>>' text is that line as the reader stores it. non-trivial "
         "= a (program, position, garbage, layout) tuple; distinct by SHA-1 of the faulty source")
 ASSUMPTIONS = ["free form only, as the property states", "the garbage strings match no Fortran statement (checked at start-up)"]
@@ -67,6 +68,22 @@ def stored_line(line):
     return line.expandtabs().rstrip() if "\t" in line else line.rstrip()
 
 
+ODD = ["\x0c", "\u2028", "\x85", "\x0b", "\x1c", "\x1d", "\x1e", "\u2029"]
+
+
+def odd_separators(text, lseed):
+    """Characters that str.splitlines() takes for line boundaries but that do not end a physical line of a source
+    (only the newline does): put into full-line comments, and a form feed alone on blank lines (page breaks)."""
+    rr = random.Random(lseed ^ 0x5BD1)
+    ls = text.split("\n")
+    for k, l in enumerate(ls):
+        if l.lstrip().startswith("! ") and rr.random() < 0.5:
+            ls[k] = l + " " + rr.choice(ODD) + " page"
+        elif not l.strip() and rr.random() < 0.5:
+            ls[k] = "\x0c"
+    return "\n".join(ls)
+
+
 def one(P, i, g, std, ic, lay, lseed):
     Q = faulty(P, i, g)
     if lay == 0:
@@ -75,6 +92,8 @@ def one(P, i, g, std, ic, lay, lseed):
     else:
         text, info = layout.render(Q, random.Random(lseed), LAYOUT)
         last = info["stmt_last"][i]
+        if lseed % 3 == 0:
+            text = odd_separators(text, lseed)
     lines = text.split("\n")
     try:
         fp.create(std)(free_reader(text, ignore_comments=ic))
